@@ -263,6 +263,9 @@ func runSequences(col *collector, part string, cat []clause, maxClauses int, ctx
 		keys := map[string]bool{}
 		calls, evals := 0, 0
 		var buf []int
+		if pastDeadline() {
+			return
+		}
 		for i := j * chunk; i < (j+1)*chunk && i < total; i++ {
 			seq := nthSequence(i, n, maxClauses, buf)
 			v := checkSequence(cat, seq, ctx)
